@@ -638,6 +638,13 @@ fn line_indent_at(src: &str, offset: usize) -> usize {
     line.len() - line.trim_start().len()
 }
 
+/// Is there only whitespace between the start of the line and
+/// `offset`?
+fn is_first_on_line(src: &str, offset: usize) -> bool {
+    let line_start = src[..offset].rfind('\n').map_or(0, |i| i + 1);
+    src[line_start..offset].trim().is_empty()
+}
+
 /// Collect indentation edits for comments in the source.
 ///
 /// Comments are not part of the AST, so we need to process them
@@ -661,6 +668,12 @@ fn collect_comment_edits(
     while let Some(token) = token_stream.pop() {
         for (comment_pos, _comment_text) in &token.preceding_comments {
             let line_num = comment_pos.line_number;
+
+            // A comment at the end of a line of code does not decide
+            // the indentation of that code.
+            if !is_first_on_line(src, comment_pos.start_offset) {
+                continue;
+            }
 
             if !processed_lines.contains(&line_num) {
                 // Use the corrected indent of the following token, or its original column
@@ -693,6 +706,10 @@ fn collect_comment_edits(
     // Trailing comments should be at depth 0
     for (comment_pos, _) in &token_stream.trailing_comments {
         let line_num = comment_pos.line_number;
+
+        if !is_first_on_line(src, comment_pos.start_offset) {
+            continue;
+        }
 
         if !processed_lines.contains(&line_num) {
             let current_indent = line_indent_at(src, comment_pos.start_offset);
